@@ -230,3 +230,25 @@ def bytes_repr_truncates(m: Model, max_length) -> str | None:
     if out != want:
         return f"a {n}-byte string is rendered as {len(out) if isinstance(out, str) else type(out).__name__} characters ({out[:24]!r}...) instead of {len(want)}"
     return None
+
+
+def check_unravel_inclusive(m: Model, r, rid: str) -> None:
+    """utils.unravel: 'a-b' includes b (shared by the properties whose skip lists are parsed with it)."""
+    un = m.require_function("gallia.utils.unravel")
+    rng = [n for n in ast.walk(un.node) if isinstance(n, ast.Call) and ast.unparse(n.func) == "range"]
+    r.check(len(rng) == 1 and m.mtext(un, rng[0]).replace(" ", "") == "range(_L,_L+1)", rid, f"{un.qualname}#inclusive",
+            f"range elements come from `{ast.unparse(rng[0]) if rng else None}`; 'a-b' includes b", loc=un.loc)
+
+
+def accepts_domain(m: Model, qual: str, values, param: str | None = None) -> list:
+    """Finite-domain evaluation of a range-check helper (e.g. check_sub_function): the values of the domain it refuses."""
+    from . import miniterp
+    f = m.require_function(qual)
+    pname = param or f.params()[0]
+    refused = []
+    for v in values:
+        try:
+            miniterp.run_function(f.node, {pname: v}, lambda call, env: "" if ast.unparse(call.func) in ("int_repr", "g_repr", "hex", "repr", "str") else NotImplemented)
+        except miniterp.Raised:
+            refused.append(v)
+    return refused
